@@ -242,6 +242,16 @@ func (r *renderer) module() string {
 		if a.Relative {
 			ap = strings.TrimPrefix(ap, "/")
 		}
+		if a.BadPrefix > 0 {
+			if steps := strings.Split(ap, "/"); a.BadPrefix+1 < len(steps) {
+				st := steps[a.BadPrefix+1]
+				if i := strings.Index(st, ":"); i >= 0 {
+					st = st[i+1:]
+				}
+				steps[a.BadPrefix+1] = "undeclared-prefix:" + st
+				ap = strings.Join(steps, "/")
+			}
+		}
 		r.line(1, "augment %s {", q(ap))
 		if a.When != "" {
 			r.line(2, "when %s;", q(a.When))
